@@ -7,16 +7,16 @@ props = [json.loads(l)['id'] for l in open(os.path.join(V, 'properties.jsonl'))]
 CLAIMS = {
  'C07': dict(level='model_checking', design='5 C07, 4.1',
    technique='TLC exhaustive model checking of the DKG network spec (DKGNet.tla) + TLC-simulated and randomised behaviours replayed on the real objects + TLC trace validation of the real logs (DKGTrace.tla)',
-   text='Exhaustive TLC exploration of a round-synchronous network of Feldman-VSS-Qual / Joint-Feldman participants (every delivery order, Byzantine scripts within a budget) checks Agreement and KeysConsistent on the specification; the specification is bound to the code by replaying TLC behaviours and seeded randomised Byzantine runs on real DKG objects, judging agreement / key consistency on the real End() outputs, and validating every real log against the specification with TLC.',
+   text='Exhaustive TLC exploration of a round-synchronous network of Feldman-VSS-Qual / Joint-Feldman participants (every delivery order, Byzantine scripts within a budget) checks Agreement and KeysConsistent on the specification; the specification is bound to the code by replaying TLC behaviours and seeded randomised Byzantine runs on real DKG objects, judging agreement / key consistency on the real End() outputs, and validating every real log against the specification with TLC. A protocol-following dealer implemented in reference arithmetic deals shaped polynomials (RefDealing.tla) to real receivers, whose keys are compared with reference Horner evaluation of the broadcast vectors; all-honest runs at the edges of the size / threshold ranges (n = 254, t = n-1, n = 2).',
    note='Bounded: n=3 exhaustively (n=4 thorough), n<=7 sampled; Byzantine grammar and round-synchrony as modelled; field arithmetic abstracted by polynomial names, concretised through real dealer objects; threshold API used as the degree-t consistency oracle on every successful run, reference G2 arithmetic (shares on one degree-t polynomial, private share x generator) on one in four.'),
  'C08': dict(level='model_checking', design='5 C08, 4.1',
    technique='TLC exhaustive model checking (DKGNet.tla, FVSS.tla) + replay of TLC-enumerated histories and randomised Byzantine runs on the real objects + TLC trace validation',
-   text='NoHonestBlamed, HonestDealerQualified, BadDealerDisqualified (with an oracle computed from the message history only) are checked by TLC on the network specification, and FVSS.tla enumerates every delivery history of plain Feldman VSS; all enumerated histories and thousands of network behaviours are executed on the real objects where the same predicates are evaluated on the real callbacks and End() classes.',
+   text='NoHonestBlamed, HonestDealerQualified, BadDealerDisqualified (with an oracle computed from the message history only) are checked by TLC on the network specification, and FVSS.tla enumerates every delivery history of plain Feldman VSS; all enumerated histories and thousands of network behaviours are executed on the real objects where the same predicates are evaluated on the real callbacks and End() classes; the reference dealer of RefDealing.tla (shaped polynomials, protocol-following) must never be complained about, flagged or disqualified.',
    note='Same bounds and abstractions as C07; flags against Byzantine participants are not judged; "on-curve outside G2" vectors are drawn by coordinate corruption.'),
 
  'C10': dict(level='model_checking', design='5 C10, 4.1',
    technique='TLC enumeration of all API call sequences of the DKG state-machine spec (DKGApi.tla), each replayed on a real instance with the prescribed result classes; metamorphic non-interference replay',
-   text='DKGApi.tla states the documented state machine (phase, timeouts taken, handler bodies of DKGNode.tla) and TLC checks its rules as invariants while enumerating every call sequence up to a length bound behind forced prefixes; every sequence is executed on a real instance of each protocol and role, the class of every call and Running() must be the prescribed ones, and the sequence with its rejected calls removed must be observationally identical.',
+   text='DKGApi.tla states the documented state machine (phase, timeouts taken, handler bodies of DKGNode.tla) and TLC checks its rules as invariants while enumerating every call sequence up to a length bound behind forced prefixes; every sequence is executed on a real instance of each protocol and role, the class of every call and Running() must be the prescribed ones, and the sequence with its rejected calls removed must be observationally identical; End on runs whose group key is the identity (reference dealer with a zero constant term, or cancelling the real participant's polynomial) must fail and leave the instance not running.',
    note='n=3, t=1, reduced alphabet of 21 calls (incl. Start with a short seed), exhaustive to length 3 (4 thorough) behind 5 forced prefixes, longer sequences sampled; reuse after End excluded as the property says.'),
 
  'C01': dict(level='model_checking', design='5 C01, 4.5',
